@@ -15,3 +15,5 @@ from contracts import fields as FL
 UNITS += [CK.unit_is_unique_init(), CK.unit_distinct_count_init(), CK.unit_audit_first_token(), FL.unit_field_name_index()]
 UNITS += [VIO.unit_raw_rows().also("C05")]
 UNITS += [VIO.unit_reader_close()]
+from props import _groups as _G
+UNITS = _G.with_groups(PROPERTY, UNITS, _G.READERS, _G.VALIDATION, _G.CHECKS)
